@@ -111,10 +111,22 @@ CLAIMS = {
          "address-derived names of unnamed types (`#%p`) reaching an error message, independence from the order of AddType/AddRule calls as a whole-history property, the "
          "loader invariant the reviewed entries rely on.",
          "5 C09", "weakest-precondition VCs over go/ssa + SMT for the classifiers; SSA shape analysis + reviewed closed list for map iteration (the list is an assumption, labelled as such)"),
+ "C05": ("Partial (the two data structures the property rests on). The collector behind UsedUserTypes() is proved to be an insertion-ordered set: addType adds a name "
+         "exactly when it is new, never duplicates, keeps earlier names and their order (representation invariant with a ghost position function, all key universes, "
+         "all call sequences); the schema's type table is proved to answer Type(name) with error code 1302 / MustType(name) with a panic exactly when the name "
+         "is not registered, addType to refuse exactly duplicates and AddType/addType to leave every other entry unchanged; IsUserTypeName exact. Not decided: that "
+         "the tree walk visits every position where a type can be referred to (value shortcut, `@a | @b`, key shortcut, type, or, allOf, additionalProperties) - "
+         "dynamic dispatch over the Node family, strings.Split/TrimSpace -, reachability-based 'type not found' in Check(), and that registering unused types "
+         "changes nothing.",
+         "5 C05", "weakest-precondition VCs over go/ssa + SMT; data-structure invariant with ghost witness"),
 }
 
 NOT_APPLICABLE = {
  "C03": "whole-pipeline language inclusion + round trip against an independent decoder: needs a verified reference grammar of the ~70-state schema scanner and the loader protocol; no per-function contract in reach states it (DESIGN.md section 6)",
+ "C06": "the recursion checker and Example() termination are graph algorithms over the Node interface family with dynamic dispatch and a type table threaded through recursive calls; a contract needs an inductive reachability predicate over the heap-allocated node graph (ghost graph + measure), which the built verifier has no support for (no heap-recursive predicates); not brought under contract in the time available (DESIGN.md part I section 5)",
+ "C07": "the merge loop (allOfConstraintCompiler.extendWith/processType) works through dynamic dispatch over the Node family (Copy, SetInheritedFrom, AddChild) inside defer/recover re-throwing handlers; a contract strong enough to state 'own ++ inherited keys' needs contracts for the whole Node interface family, not done in the time available; the observed defect (additionalProperties true vs false merges silently) is documented in DESIGN.md part I section 7 but not claimed",
+ "C08": "instance validity of the example against the generated OpenAPI schema needs an independent JSON Schema validator as oracle and a relation between two whole-pipeline outputs; no per-function contract states it (DESIGN.md section 6); the pooled-buffer half of the marshalers is claimed under C10",
+ "C15": "Len() is computed by the ~70-state schema scanner and the enum scanner, which are not under contract (only the JSON document scanner is, and its Len clause is listed as not covered under C12); the boundary/idempotence/trailer clauses relate two runs on different texts (2-safety)",
  "C11": "quantifies over goroutine interleavings; the verifier is sequential (mutexes/Once are no-ops in its model), no permission logic for threads (DESIGN.md section 6)",
  "C14": "2-safety relation between two complete pipeline runs on different texts; self-composition is feasible for a loop body, not for scanner+loader+compiler (DESIGN.md section 6)",
 }
